@@ -1160,7 +1160,7 @@ def analyse(case, obs):
 
 class C04(Prop):
     id = "C04"
-    props_file = "Props/C04.v"
+    props_file = ["Props/C04.v", "Props/C04_Bridge.v"]
     coq_imports = kc.COQ_IMPORTS
     n_quick = 600
     n_thorough = 15000
@@ -1173,7 +1173,8 @@ class C04(Prop):
                        "ignore/retry/re-wait/elsewhere/return/raise/propagate, bursts, self, spawn-then-interrupt, module-level "
                        "interrupts, shared and failing targets with co-waiters; dyadic delays; non-trivial = at least one "
                        "interrupt() call on a process and at least 5 processed events; distinct by hash of the case")
-    trusted_base = ["kernel harness props/kernel_common.py: real generators on the real Environment; env.schedule/env.step wrapped "
+    trusted_base = ["vlib/translate.py (Python ast, fail closed; observation/effect tables in props/kernel_tie.py) regenerates coq/Gen/Extracted_kernel.v from the kernel leaves of the tree under test (Environment.schedule/peek/step, Event.succeed/fail/defused, Timeout/Initialize/Interruption.__init__, Interruption._interrupt, Process.interrupt) before every build; the C04_gen_* theorems (Props/C04_Bridge.v) bridge them to Kernel/Model.v; step()'s heappop try/except, its callback loop and peek()'s try/except are whitelisted as one statement each; Process._resume is not translated",
+                    "kernel harness props/kernel_common.py: real generators on the real Environment; env.schedule/env.step wrapped "
                     "as instance attributes (no change in /repo); events named by creation index",
                     "props/c04.py IHarness: monitor-only record of interrupt() calls, generator start/end (a `yield from` wrapper "
                     "around the script body), yields and conditions; does not alter the trace compared with the model",
@@ -1188,6 +1189,13 @@ class C04(Prop):
                     "interrupt_delivery assumes the victim was not made to wait for the Interruption event aimed at itself (the "
                     "kernel never hands that object out; an automaton of the model could forge its id)"]
     partial = []
+
+
+    # ---- second tie: the kernel leaves translated from the tree under test before the Coq build (fail closed) ----
+    def pre_build(self):
+        from vlib import framework as fw
+        from props import kernel_tie
+        kernel_tie.write_extracted_kernel(fw.REPO, fw.COQ)
 
     def gen_case(self, rng, tier):
         r = rng.random()
